@@ -46,6 +46,9 @@ bool ops_archive(Ctx& c, const json& s, int idx, bool& handled) {
 				if (call == "GetCount") return {true, (long)v.GetCount()}; if (call == "GetName") { std::string n = v.GetName(i); return {true, json(std::vector<unsigned char>(n.begin(), n.end()))}; }
 				if (call == "GetSize") return {true, std::to_string(v.GetSize(i))};
 				if (call == "OpenStream") { auto st = v.OpenStream(i); return {true, capped(drain(*st))}; }
+				if (call == "SeekBeyond") { auto st = v.OpenStream(i); long accepted = 0;       // absolute seeks far outside a member stream (values next to 2^64, where offset arithmetic wraps)
+					for (unsigned long long k : {0ull, 1ull, 7ull, 8ull, 59ull, 60ull, 200ull, 5000ull}) { bool ok = true; try { st->Seek(UINT64_MAX - k); } catch (const std::exception&) { ok = false; } if (ok || st->Position() > st->Length()) ++accepted; }
+					return {true, accepted}; }
 				if (call == "Extract") { std::string d = ROOT + "/ex.bin"; fs::remove(d); v.ExtractFile(i, d); return {true, capped(Scen::slurp(d))}; }
 			} catch (const std::exception&) { return {false, 0}; } return {false, 0}; };
 		std::unique_ptr<Archive::ArchiveFile> longLived; bool opened = true; try { longLived = openIt(); } catch (const std::exception&) { opened = false; }
